@@ -170,6 +170,25 @@ theorem authorizeAction_eq_nearest (a : Account) (resource : Path) (want : Nat) 
           | cons x xs => rw [hpv] at hlen; simp at hlen
         rw [this, walkSpec_empty]
 
+/-- For EVERY user table: a rooted resource, no early allow ⇒ the loop's answer is `walkSpec` on the node. -/
+theorem authorizeAction_walkSpec (u : User) (cs : List Char) (want : Nat) (h0 : ¬ (want = noPriv ∨ u.admin = true)) :
+    authorizeAction u ('/' :: cs) want = walkSpec u.privs want (cleanSegs true (split ('/' :: cs))) := by
+  unfold authorizeAction
+  rw [if_neg h0]
+  obtain ⟨hn, hc⟩ := nodeOf_normal _ _ (nodeOf_abs cs)
+  simp only [isAbs, Bool.not_true, Bool.false_eq_true, if_false]
+  split
+  · rw [hc]
+    apply walk_canonical _ _ _ hn
+    have := join_length_ge _ (fun s hs => (hn s hs).1.1)
+    simp; omega
+  · rename_i hlen
+    have : u.privs = [] := by
+      cases hpv : u.privs with
+      | nil => rfl
+      | cons x xs => rw [hpv] at hlen; simp at hlen
+    rw [this, walkSpec_empty]
+
 /-! ### privilege masks -/
 
 theorem foldl_or_and (ps : List Nat) (acc w : Nat) :
